@@ -123,6 +123,11 @@ impl C08 {
         letters.push("use-db t x wrong".to_string());
         letters.push("set-permissions bob rwix $$*".to_string());
         letters.push("create-user eve e1".to_string());
+        // entries of the conflict queue that name a `$$` key, written by the session itself (the queue's keys
+        // start with one `$`, so any session may write them); the resolve lines of the alphabet carry id 5
+        letters.push("set $conflicts_$$secret_5 waiting".to_string());
+        letters.push("set $conflicts_$$token_5 waiting".to_string());
+        letters.push("set-safe $conflicts_$$secret_5 0 waiting".to_string());
         let mut letters = dedup_by_parse(letters);
         letters.push(ADMIN_TOUCH_SECRET.to_string());
         letters.push(ADMIN_TOUCH_PLAIN.to_string());
@@ -131,6 +136,7 @@ impl C08 {
             "watch $$token", "watch $$secret", "watch secret", "watch $secret", "watch *", "watch $$*", "watch secret,$$secret", "watch secret|$$secret",
             "unwatch $$secret", "unwatch secret", "set secret v", "set $secret v", "remove secret", "increment secret",
             "set-safe secret 7 v", ADMIN_TOUCH_SECRET, ADMIN_TOUCH_PLAIN,
+            "set $conflicts_$$secret_5 waiting", "set $conflicts_$$token_5 waiting", "set-safe $conflicts_$$secret_5 0 waiting",
         ];
         for sl in session_letters.iter() {
             assert!(letters.iter().any(|l| l == sl), "session letter {} missing from alphabet", sl);
